@@ -7,7 +7,7 @@ import ast
 from ..absint import NONE, App, ClassV, Const, DictV, ExcV, ListV, ObjV, Sym
 from ..flow import FlowPolicy, exits, run_flow
 from ..repo import AnalysisError, body_walk, call_name, norm, short
-from .c14 import RUN_CORO, callback_mutation_table, registries_emptied, registry_writes, task_registries
+from .c14 import _registry_of, RUN_CORO, callback_mutation_table, registries_emptied, registry_writes, task_registries
 
 LEVEL_TEXT = (
     "decides necessary structural conditions of C13, not mutual exclusion over interleavings: the three places that "
@@ -217,9 +217,10 @@ def run(ctx):
     inv = []
     for u in program.functions():
         for n in body_walk(u.node):
-            if isinstance(n, ast.Delete) and any("unique_name2task[" in norm(t) for t in n.targets):
+            if isinstance(n, ast.Delete) and any(isinstance(t, ast.Subscript) and ("unique_name2task" in norm(t.value) or _registry_of(t.value) == "unique_name2task") for t in n.targets):
                 inv.append(u.uid)
-            if isinstance(n, ast.Call) and isinstance(n.func, ast.Attribute) and n.func.attr in ("pop", "clear") and "unique_name2task" in norm(n.func.value):
+            if isinstance(n, ast.Call) and isinstance(n.func, ast.Attribute) and n.func.attr in ("pop", "clear") and \
+                    ("unique_name2task" in norm(n.func.value) or _registry_of(n.func.value) == "unique_name2task"):
                 inv.append(u.uid)
     inv = [RUN_CORO if program.only_reached_from(u, {RUN_CORO}) else u for u in inv]
     ctx.check(set(inv) == {RUN_CORO}, "R13.4", RUN_CORO, "owner map entries deleted only in run_coro",
